@@ -2,18 +2,28 @@
 # usage: tools/run_seeded.sh <seed-id> <prop> [<prop>...]
 # applies /verif/seeded/<seed-id>/patch.diff to a scratch worktree of /repo and runs the quick checks against it
 # (VERIF_REPO); with REAL=1 applies it to /repo itself and undoes it straight afterwards.
+# TIER=thorough runs the thorough tier. Appends one line per run to /verif/seeded/<seed-id>/detect.log
 id=$1; shift
 cd /verif
 patch=/verif/seeded/$id/patch.diff
+tier=${TIER:-quick}
+one() {  # $1 = prop
+  local p=$1 log=/tmp/seeded_${id}_$p.log s=$(date +%s)
+  ./check $p --tier $tier > $log 2>&1; local rc=$?
+  local line="$id $p tier=$tier seed=${VERIF_SEED:-0} rc=$rc $(( $(date +%s) - s ))s viol=$(grep -c '^VIOLATION' $log) :: $(grep '^VIOLATION' $log | head -2 | tr '\n' ' ')"
+  echo "$line"; echo "$line" >> /verif/seeded/$id/detect.log
+  grep -h '^VIOLATION' $log | head -1 | sed 's/.*replay=\([^ ]*\).*/\1/' | while read r; do [ -f "$r" ] && head -c 1500 "$r" > /verif/seeded/$id/first_replay_$p.json; done
+}
 if [ "$REAL" = "1" ]; then
   git -C /repo apply $patch || exit 3
-  for p in "$@"; do ./check $p --tier quick > /tmp/seeded_${id}_$p.log 2>&1; echo "$id $p rc=$? $(grep -c '^VIOLATION' /tmp/seeded_${id}_$p.log) $(grep '^VIOLATION' /tmp/seeded_${id}_$p.log | head -2 | tr '\n' ' ')"; done
+  for p in "$@"; do one $p; done
   git -C /repo checkout -- .
 else
   wt=/tmp/apply-$id
   git -C /repo worktree remove --force $wt 2>/dev/null
   git -C /repo worktree add -q $wt HEAD || exit 3
   git -C $wt apply $patch || { git -C /repo worktree remove --force $wt; exit 3; }
-  for p in "$@"; do VERIF_REPO=$wt ./check $p --tier quick > /tmp/seeded_${id}_$p.log 2>&1; echo "$id $p rc=$? $(grep -c '^VIOLATION' /tmp/seeded_${id}_$p.log) $(grep '^VIOLATION' /tmp/seeded_${id}_$p.log | head -2 | tr '\n' ' ')"; done
+  export VERIF_REPO=$wt
+  for p in "$@"; do one $p; done
   git -C /repo worktree remove --force $wt
 fi
